@@ -258,7 +258,7 @@ func wfRun(args []string) error {
 		{"plain reader", func(b []byte) io.Reader { return &countingSrc{b: b, mode: "rand", r: r} }}}
 	for _, destKind := range []string{"norf", "rf"} {
 		for _, sc := range srcs {
-			for _, n := range []int{0, 1, 100, 40000, 100000} {
+			for _, n := range []int{0, 1, 100, 32767, 32768, 32769, 40000, 65536, 100000} { // around the 32 KiB copy buffer
 				id++
 				var fw *faultyWriter
 				var w io.Writer
